@@ -367,6 +367,10 @@ def create_concurrent_parametric_estimator_from_concurrent_estimator(
         bound_states = cast(
             Sequence[_StateT], [state.bind_parameters(param) for param in seq_of_params]
         )
+        if len(bound_states) == 0:
+            # An empty batch of parameters has an empty batch of estimates (as
+            # the native concurrent parametric estimators return).
+            return []
         return concurrent_estimator([operator], bound_states)
 
     return concurrent_parametric_estimator
